@@ -76,4 +76,24 @@ CHECKS["C09"] = {
          "template and compared position by position.",
  "note": DP_NOTE + " A plugin that never answers is not generated (not an engine hang).",
  "technique": "TLC-enumerated case space + fault enumeration on the real engines, traces validated by TLC"}
+LC_NOTE = ("Fake plugins on in-process streams; plugin errors are plain (transient) errors; back-off checked as lower bound "
+           "and attempt count; bounded liveness 40 s; calls issued one at a time per pipeline (waits overlap).")
+CHECKS["C10"] = {
+ "text": "Real lifecycle services (v1, v2) with millisecond back-off; each of 15 failure / stop classes of the property "
+         "(DLQ threshold, DLQ write failure, force stop, non-converging processor, vanishing / persistent transient "
+         "source, destination and open failures, user stop while running / during back-off / after recovery, shutdown, "
+         "failure during a graceful stop, disabled DLQ) x retry limit 0/1/2 is injected; TLC validates every trace against "
+         "LifecycleTrace.tla: FatalDegrades, NoRestartAfterFatal, TransientRecovers, RestartFromDurable, "
+         "BackoffLowerBound, RecoveryBounded, StoppedStaysStopped. Design level: Lifecycle.tla model-checked.",
+ "note": LC_NOTE, "technique": "TLA+ model checking (TLC) of the lifecycle protocol + TLC trace validation of real-service traces"}
+CHECKS["C11"] = {
+ "text": "Lifecycle.tla (publication protocol of both services, one action per critical section: publish, status write "
+         "in memory then in the store, terminal error, compare-and-delete, recovery restart) is model-checked "
+         "exhaustively (OneLiveRun, PublishedIsLive, StopHitsLive, NoOrphan, StatusAgrees); TLC-generated control-call "
+         "schedules are replayed on the REAL services with a store gate holding the cleanup goroutine inside its status "
+         "write exactly where the model has that window; plus seeded random histories, failure bursts and user starts "
+         "during recovery, each ending with a restart check; TLC validates every trace (OneLiveRun, StopHitsLive, "
+         "WaitReturnsOwnResult, StatusAgrees, ReleasedAfterEnd, Restartable, NoHang).",
+ "note": LC_NOTE + " Known open finding F13 (user Start racing a recovery restart).",
+ "technique": "TLA+ model checking (TLC) + TLC-generated schedules replayed on the real services + TLC trace validation"}
 NOT_APPLICABLE = {}
